@@ -23,7 +23,7 @@ def fmtModel (noPre : Bool) (s0 : St) : Res Out → String
 
 def fmtSpec : Res Out → String
   | .ok r s => fmtOk r s
-  | .assert _ _ => "assert"
+  | .assert k _ => s!"assert({siteOf k})"     -- the site of the first violated documented clause
   | .oob _ => "unchecked"
 
 def sizeArg (l : Line) (k : String) : Option Nat :=
